@@ -119,6 +119,13 @@ closure("DatetimeTimestampProvider._make_loader.<locals>.datetime_timestamp_load
          "value": "implies(returned, py(lambda d, r, z: same(r, datetime.fromtimestamp(d, tz=z)), data, result, tz))"},
         native=lambda mod, label: mod.DatetimeTimestampProvider({"utc": timezone.utc, "local": None}[label])._make_loader())
 
+closure("DateTimestampProvider._make_loader.<locals>.date_timestamp_loader", "DateTimestampProvider._make_loader",
+        {"": lambda m: m.DateTimestampProvider()},
+        {**COMMON_RAISE,
+         "accept-iff": "returned == py(lambda d: d is not None and ctor_ok(date.fromtimestamp, d), data)",
+         "value": "implies(returned, py(lambda d, r: same(r, date.fromtimestamp(d)), data, result))"},
+        native=lambda mod, label: mod.DateTimestampProvider()._make_loader())
+
 closure("SecondsTimedeltaProvider._make_loader.<locals>.timedelta_loader", "SecondsTimedeltaProvider._make_loader",
         {"": lambda m: m.SecondsTimedeltaProvider()},
         {**COMMON_RAISE,
